@@ -165,6 +165,15 @@ M = {
                                        'a difference of dates is compared as its text again (the repaired defect 5e2fdee)'),
     'c06-long-mantissa-unchecked': ('C06', [(SRC + 'tokens/regexp_tokens/__init__.py', "if len(self.value[2]) > 400 or len(self.value[5] or '') > 400 or", "if")],
                                     'a mantissa of thousands of digits reaches int() again (the repaired defect 6f79fd5)'),
+    'c04-override-date-not-normalised': ('C04', [(CTX, "            return self._at_midnight(value)\n", "            return value\n")],
+                                         'a date-only override enters the computation as datetime.date again (part of the repaired defect d5a9303)'),
+    'c04-foreign-blank-object': ('C04', [(CTX, "            if value is None or (type(value).__name__ == 'EmptyCell' and not isinstance(value, self.EmptyCell)):", "            if value is None:")],
+                                 'the blank object handed out by another generated class is kept as it is (part of the repaired defect d5a9303)'),
+    'c04-refused-batch-grows-size': ('C04', [(SRC + 'utilities/executor.py', "            handle_cell(cell, self._titles)\n\n        for cell in cells:",
+                                              "            handle_cell(cell, self._titles)\n            self._sheets_size[cell.title]['last_row'] = max(cell.row + 1, self._sheets_size[cell.title]['last_row'])\n\n        for cell in cells:")],
+                                     'a batch refused at its second cell has already grown the sheet for its first (part of the repaired defect 44c45aa)'),
+    'c04-generator-batch-lost': ('C04', [(SRC + 'utilities/executor.py', "        cells = list(cells)\n", "")], 'a batch given as a generator is walked twice and stores nothing (part of 44c45aa)'),
+    'c04-callers-objects-kept': ('C04', [(SRC + 'utilities/executor.py', "{cell.uid: copy(cell) for cell in cells}", "{cell.uid: cell for cell in cells}")], 'the overrides are the caller\'s Cell objects again (part of 44c45aa)'),
 }
 
 
